@@ -221,8 +221,12 @@ def check_try(ctx, cfg, key, boxed):
             det = "source = take(&mut iter, N): %s; Vec::with_capacity(N): %s" % (ok, cap)
             ok = ok and cap
         ctx.ob("C07.Z", key + "#fill", ok, det, at=b["at"], cfg=cfg)
-        okv = bool(convs) and all(is_full(c.facts) for c in convs)
-        ctx.ob("C07.O", key + "#convert", okv, "%s reached under len == N: %s (its result cannot be Err / its unwrap cannot fail)" % ([c.key.split("::")[-1] for c in convs], okv), at=b["at"], cfg=cfg)
+        # the Vec becomes the box only under len == N: through the crate's own conversions, or by the raw hand-over written out
+        # (Box::from_raw of the boxed slice's own block - layouts equal under len == N is C16.P's obligation on this same body)
+        raw = [c for c in a.calls if c.fn.endswith("::from_raw") and "Box::<T" in c.fn] if not convs else []
+        sites = convs or raw
+        okv = bool(sites) and all(is_full(c.facts) for c in sites)
+        ctx.ob("C07.O", key + "#convert", okv, "%s reached under len == N: %s (its result cannot be Err / its unwrap cannot fail / the raw hand-over has equal layouts)" % ([(c.key or c.fn).split("::")[-1] for c in sites], okv), at=b["at"], cfg=cfg)
 
 
 def check_extend(ctx, cfg, key):
